@@ -78,6 +78,7 @@ MUTANTS = [
     ('N13', P + 'alignment.py', 'def make_substitution_fn', '    _unwrap.gap = gap\n', '', [('C17', 'R-TAB')]),
     ('N14', P + 'dp.py', 'def dp(', 'last_under_max_dist == -1 and c > 0:', 'last_under_max_dist == -1:', [('C17', 'R-PRUNE')]),
     ('N16', C + 'dd_dtw.c', 'idx_t dtw_settings_wps_width(', '    DTWWps p = dtw_wps_parts(l1, l2, settings);\n    return p.width;', '    DTWWps p = dtw_wps_parts(l1, l2, settings);\n#ifdef NDEBUG\n    p.width = p.width - 1;\n#endif\n    return p.width;', [('C08', 'R-CFG'), ('C02', 'R-CFG')]),
+    ('N17', C + 'dd_dtw.c', 'idx_t dtw_best_path_prob(', 'probs[2] = prev - wps[ri_widthp + wpsi + 1]; // Right', 'probs[2] = prev - wps[ri_widthp + wpsi]; // Right', [('C05', 'R-MAP'), ('C12', 'R-MAP')]),
     ('N15', P + 'similarity.py', 'def squash', 'Xz = 1 - np.exp(x0 / r)', 'Xz = 1 - np.exp(-x0 / r)', [('C19', 'R-DUAL')]),
 ]
 
@@ -172,6 +173,34 @@ def _run_seeded(name):
         shutil.rmtree(tmp, ignore_errors=True)
 
 
+def _run_shift(_=None):
+    """Whole-tree twin: two comment lines are prepended to every source file (all line numbers move); every check must stay at exit 0 with the
+    same known findings (identity never uses positions)."""
+    tmp = tempfile.mkdtemp(prefix='sa_selftest_')
+    try:
+        shutil.copytree(os.path.join(REPO, 'src'), os.path.join(tmp, 'src'), ignore=shutil.ignore_patterns('*.so', '__pycache__', 'build'))
+        for root, _d, files in os.walk(os.path.join(tmp, 'src')):
+            for fn in files:
+                pre = '# shifted\n# shifted again\n\n' if fn.endswith(('.py', '.pyx', '.pxd')) else ('// shifted\n// shifted again\n\n' if fn.endswith(('.c', '.h')) and 'jinja' not in root else None)
+                if pre:
+                    path = os.path.join(root, fn)
+                    with open(path) as f:
+                        txt = f.read()
+                    with open(path, 'w') as f:
+                        f.write(pre + txt)
+        env = dict(os.environ, VERIF_REPO=tmp, VERIF_NO_EVIDENCE='1', VERIF_CACHE=os.path.join(tmp, '.cache'))
+        bad = []
+        procs = {p: subprocess.Popen(['/venv/bin/python', '-m', 'sa.check', p], cwd=VERIF, env=env, stdout=subprocess.PIPE, stderr=subprocess.STDOUT, text=True)
+                 for p in ['C%02d' % i for i in range(1, 21)]}
+        for p, pr in procs.items():
+            out, _e = pr.communicate()
+            if pr.returncode != 0 or 'STALE-FINDING' in out:
+                bad.append('%s rc=%s' % (p, pr.returncode))
+        return 'TSHIFT', not bad, '; '.join(bad)
+    finally:
+        shutil.rmtree(tmp, ignore_errors=True)
+
+
 def main(argv):
     jobs = 16
     ids = [a for a in argv if not a.startswith('-')]
@@ -182,6 +211,8 @@ def main(argv):
     res = []
     with concurrent.futures.ThreadPoolExecutor(max_workers=jobs) as ex:
         futs = [ex.submit(_run_variant, item, kind) for item, kind in work] + [ex.submit(_run_seeded, n) for n in seeded]
+        if '--all' in argv or 'TSHIFT' in ids:
+            futs.append(ex.submit(_run_shift))
         for fu in futs:
             res.append(fu.result())
     bad = 0
